@@ -16,7 +16,10 @@ def known():
     out = []
     for p in [V + "/known_findings.json"] + sorted(glob.glob(V + "/known_findings.d/*.json")):
         out.extend(json.load(open(p))["findings"])
-    return out
+    d = {}
+    for k in out:
+        d[(k["property"], k["signature"])] = k
+    return list(d.values())
 
 
 def main():
